@@ -566,6 +566,17 @@ thread_local! {
     /// when false, semantic zero-checks on the topic alias property are skipped so that a hostile
     /// server stream can still be framed by the harness
     static STRICT: std::cell::Cell<bool> = std::cell::Cell::new(true);
+    /// second-chance decoding of the client's own stream: accept the SUBSCRIBE subscription
+    /// identifier as a 4-byte integer (a recorded defect of the crate under test) so that the
+    /// monitors can keep following the stream after reporting the malformed packet
+    static COMPAT_SUBSCRIBE_SUBID_U32: std::cell::Cell<bool> = std::cell::Cell::new(false);
+}
+
+fn with_compat<T>(f: impl FnOnce() -> T) -> T {
+    let old = COMPAT_SUBSCRIBE_SUBID_U32.with(|s| s.replace(true));
+    let r = f();
+    COMPAT_SUBSCRIBE_SUBID_U32.with(|s| s.set(old));
+    r
 }
 
 pub fn with_strictness<T>(strict: bool, f: impl FnOnce() -> T) -> T {
@@ -685,7 +696,8 @@ fn decode_props(c: &mut Cur, allowed: &[u8], multi_sub_id: bool, ctx: &str) -> D
                 props.u32s.insert(id, v);
             }
             11 => {
-                let v = pc.vbi(&what)?;
+                let compat = ctx == "SUBSCRIBE" && COMPAT_SUBSCRIBE_SUBID_U32.with(|s| s.get());
+                let v = if compat { pc.u32(&what)? } else { pc.vbi(&what)? };
                 if v == 0 { return Err(format!("{}:subscription-identifier-zero", ctx)); }
                 props.sub_ids.push(v);
             }
@@ -1003,11 +1015,14 @@ pub struct StreamDecoder {
     buf: Vec<u8>,
     consumed: usize,
     pub error: Option<String>,
+    /// packets that only decoded in compatibility mode: (strict error, packet index)
+    pub soft_errors: Vec<String>,
+    pub compat: bool,
 }
 
 impl StreamDecoder {
     pub fn new(v5: bool) -> StreamDecoder {
-        StreamDecoder { v5, lenient: false, buf: Vec::new(), consumed: 0, error: None }
+        StreamDecoder { v5, lenient: false, buf: Vec::new(), consumed: 0, error: None, soft_errors: Vec::new(), compat: false }
     }
 
     /// bytes received so far that do not yet form a complete packet
@@ -1051,6 +1066,15 @@ impl StreamDecoder {
             let first = self.buf[0];
             let body: Vec<u8> = self.buf[1 + n..total].to_vec();
             let decoded = if self.lenient { with_strictness(false, || decode_packet(first, &body, self.v5)) } else { decode_packet(first, &body, self.v5) };
+            let decoded = match decoded {
+                Err(e) if self.compat => {
+                    match with_compat(|| decode_packet(first, &body, self.v5)) {
+                        Ok(p) => { self.soft_errors.push(e); Ok(p) }
+                        Err(_) => Err(e),
+                    }
+                }
+                other => other,
+            };
             match decoded {
                 Ok(packet) => {
                     out.push(Framed { packet, start: self.consumed, end: self.consumed + total });
